@@ -120,7 +120,20 @@ type fwd02 struct {
 
 func tracerCase(r *rand.Rand, hist map[string]int) (string, any, string, bool) {
 	nr, nw := 1+r.Intn(2), 1+r.Intn(4)
+	fan := r.Intn(5) == 0 // a wide fan-out: every request derives one packet per writer, all of them answered, in any order
+	if fan {
+		nr, nw = 1, 3+r.Intn(2)
+	}
 	w := newTW02(r, nr, nw)
+	if fan {
+		for i := range w.sink {
+			if w.sink[i] == nil {
+				w.sink[i] = packet.NewReader()
+				w.wr[i].Link(w.sink[i])
+			}
+		}
+		hist["fan"]++
+	}
 	defer w.close()
 	fw := make([]fwd02, nr)
 	owed := make([]int, nw) // requests waiting in sink i
@@ -139,6 +152,9 @@ func tracerCase(r *rand.Rand, hist map[string]int) (string, any, string, bool) {
 			if owed[j] > 0 {
 				ms = append(ms, move{1, j}, move{1, j}) // downstream answers writer j
 			}
+		}
+		if nr == 2 && fw[0].phase == 1 && fw[1].phase == 1 && len(fw[0].derived) == 0 && len(fw[1].derived) == 0 {
+			ms = append(ms, move{2, 0}, move{2, 0}) // many-to-one: both requests in hand, one packet derived from both
 		}
 		m := ms[r.Intn(len(ms))]
 		var opG string
@@ -177,7 +193,10 @@ func tracerCase(r *rand.Rand, hist map[string]int) (string, any, string, bool) {
 					if d > nw {
 						d = nw
 					}
-					if len(f.derived) < d && (len(f.derived) == 0 || r.Intn(4) > 0) {
+					if fan {
+						d = nw
+					}
+					if len(f.derived) < d && (len(f.derived) == 0 || fan || r.Intn(4) > 0) {
 						pl := randPayload(r, 1)
 						q := packet.New(pl)
 						w.tr.Link(f.cur, q)
@@ -213,6 +232,24 @@ func tracerCase(r *rand.Rand, hist map[string]int) (string, any, string, bool) {
 						f.phase = 0
 					}
 				}
+			} else if m.kind == 2 {
+				pl := randPayload(r, 1)
+				q := packet.New(pl)
+				for i := range fw {
+					w.tr.Link(fw[i].cur, q)
+					op := fmt.Sprintf("TLink %d %d %s", w.id(fw[i].cur), w.id(q), payG(pl))
+					steps = append(steps, fmt.Sprintf("(%s, %s)", op, w.observe(false)))
+					in = append(in, op)
+				}
+				j := r.Intn(nw)
+				w.tr.Write(w.wr[j], q)
+				acc := w.sink[j] != nil
+				if acc {
+					owed[j]++
+				}
+				opG = fmt.Sprintf("TWrite (Some %d) %d %s", j, w.id(q), gal.Bool(acc))
+				fw[0].phase, fw[1].phase = 0, 0
+				hist["many-to-one"]++
 			} else {
 				j := m.a
 				req := recvTimeout(w.sink[j].Read())
@@ -260,9 +297,9 @@ func runC02(seed int64, n int, tier string) *Result {
 		Prop:     "C02",
 		Requires: []string{"Packet.Writer", "Node.Tracer", "Node.CheckTracer"},
 		CaseType: "c2case",
-		OkFn:     "c2ok",
+		OkFn:     "c2ok_spec",
 		Rule: "tracer level: a real packet.Tracer with 1-2 readers (fed by real upstream writers) and 1-4 writers (each with or without a downstream reader); 8-32 calls chosen at random among " +
-			"the next call of each forward loop (Read; Link of 0-4 derived packets; Write of each to its own writer, or Write(nil, request) when nothing is derived) and the answers of downstream readers " +
+			"the next call of each forward loop (Read; Link of 0-4 derived packets; Write of each to its own writer, or Write(nil, request) when nothing is derived; with two readers also the many-to-one shape: one packet linked to the requests of both readers, then written) and the answers of downstream readers " +
 			"(payload, error, None) delivered through Tracer.Receive, in any interleaving (so answers arrive while a later request is between Read and Link); observed after every call: the answers handed to each reader (outbound hook), " +
 			"Tracer.Reads / Tracer.Writes, panics; node level (every fourth case): see the node oracle; non-trivial = two requests of one reader in flight at once; distinct by rendered case",
 		Hist: map[string]int{},
